@@ -90,7 +90,8 @@ def gen_plan(seed, tier):
   elif w == "w3":
     for i in range(r.randint(1, 3)):
       steps.append({"thread": i, "sections": r.randint(1, 2),
-                    "nested": r.chance(0.3), "inner": r.randint(0, 3)})
+                    "nested": r.chance(0.4), "inner": r.randint(0, 3),
+                    "inner_raises": r.chance(0.5)})
     cfg["coop_tasks"] = r.randint(1, 3)
     cfg["coop_steps"] = r.randint(2, 6)
   elif w == "w5":
@@ -533,8 +534,16 @@ def _w3(sim, world, eng, plan):
           for _ in range(st["inner"]):
             eng.preempt()
           if st["nested"]:
-            with sched.synchronized():
-              events.append((world.next_seq(), "inner", who))
+            try:
+              with sched.synchronized():
+                events.append((world.next_seq(), "inner", who))
+                eng.preempt()
+                if st.get("inner_raises"):
+                  raise KeyError("inside the inner section")
+            except KeyError:
+              sim.probes["inner_section_raised"] += 1
+            # still inside the outer section
+            for _ in range(1 + st["inner"]):
               eng.preempt()
           events.append((world.next_seq(), "exit", who))
       done[0] += 1
